@@ -28,8 +28,6 @@ func (ex *Exec) blobDigest(b *Blob) *Term {
 	panic(engineErr("hash of a marshalled message"))
 }
 
-func cmdCheck(args []string) int { return 2 }
-
 func (ex *Exec) tryDeepEq(a, b Value) (t *Term, ok bool) {
 	defer func() {
 		if r := recover(); r != nil {
